@@ -406,6 +406,15 @@ def market_step_tie():
                     pre_proofs=("TickC06Proofs.v", "FillC08Proofs.v", "AddC04Proofs.v", "CancelC04Proofs.v"))
 
 
+def book_tie():
+    """the queue discipline of OrderBook.add / _remove / cancel / change_order_volume and of the put-back in Market._execution
+    (C01, C02, C03): whenever they return, the queue is a heap again"""
+    import py2coq_book
+    src = os.path.join(REPO, "pams", "order_book.py")
+    return _run_tie("translator:pams/order_book.py(queue discipline)+pams/market.py(put-back)", src, lambda: py2coq_book.translate(REPO),
+                    "BookGen.v", "BookC02Proofs.v", "BookGen.")
+
+
 def runner_tie():
     """the per-order block of SequentialRunner._handle_orders, both copies (C09, C11)"""
     import py2coq_runner
